@@ -310,6 +310,20 @@ def run(ctx):
                         if mem:
                             cap = (mem, anc)
                 assigns.append((l.name, r.name if r.k == "DeclRefExpr" else None, cap, a))
+    # `g_dispatch = <static const table>`: every slot named by the table's initialiser is assigned at once
+    globs = {g["name"]: g for _, g in P.globals if g.get("init") is not None}
+    for a in init.body.walk():
+        if is_assign(a) and a.op == "=":
+            l = a.c[0].strip()
+            r = a.c[1].strip_casts()
+            if l.k == "DeclRefExpr" and l.name == "g_dispatch" and r.k == "DeclRefExpr" and r.name in globs:
+                tab = globs[r.name]["init"]
+                if tab.k == "InitListExpr" and len(tab.c) == len(slots):
+                    for slot, cell in zip(slots, tab.c):
+                        x = cell.strip_casts() if cell is not None else None
+                        if x is not None and x.k == "UnaryOperator" and x.op == "&":
+                            x = x.c[0].strip_casts()
+                        assigns.append((slot, x.name if x is not None and x.k == "DeclRefExpr" else None, None, a))
     scalar = {s: None for s in slots}
     first_override = None
     for slot, fname, cap, node in assigns:
@@ -417,8 +431,9 @@ def run(ctx):
             if fn.static or not fn.name.startswith("carquet_%s_" % isa):
                 continue
             jobs.append((P, fn, fn.name.replace("carquet_%s_" % isa, ""), isa, maxn))
+    installed = set(fname for _, fname, cap, _ in assigns if cap is None and fname)
     for fn in sorted(P.funcs_in(DP), key=lambda f: f.line):
-        if fn.name.startswith("scalar_"):
+        if fn.name.startswith("scalar_") and fn.name in installed:     # helpers of the fallbacks are reached through them
             jobs.append((P, fn, fn.name.replace("scalar_", "").replace("byte_split", "byte_stream_split"), "scalar", ctx.depth(40, 130)))
     _JOBS.clear()
     for i, j in enumerate(jobs):
